@@ -45,7 +45,7 @@ func (eng) Assumptions() []string {
 func (eng) Cases(seed uint64, tier string) []core.CaseDesc {
 	ns, nsc, nl := 300, 40, 100
 	if tier == "thorough" {
-		ns, nsc, nl = 10000, 600, 3000
+		ns, nsc, nl = 400000, 12000, 60000
 	}
 	var cs []core.CaseDesc
 	for i := 0; i < ns; i++ {
